@@ -18,7 +18,9 @@ RULE = ("TOTAL: one corpus covering every public operation (parsers on valid/mal
         "an out-of-bounds index panics) and feature `unsafe` in release (a false invariant! is undefined behaviour: crash, "
         "SIGILL or a differing result).  Decided per case: no PANIC other than quartile(i >= buckets) and an over-claiming "
         "reader; no crash; identical results in both builds; each build equal to the model under its flags.  Crashed shards "
-        "are re-run one case per process to isolate the culprit.  Non-trivial = every case (each is an API call sequence); "
+        "are re-run one case per process to isolate the culprit.  The same corpus also runs on the debug-assertion builds of the "
+        "other cfg branches (no SIMD, embedded tables, low-memory tables/buckets, quarter and min decode tables, static SSE2): no "
+        "panic, no crash, the model's answer under the matching flags.  Non-trivial = every case (each is an API call sequence); "
         "distinct by case text.")
 
 
@@ -132,6 +134,38 @@ def run(ctx):
     ctx.suites["TOTAL"] = st
     for c, a, b in list(zip(cases, out_dbg, out_uns))[:3]:
         ctx.samples.append({"suite": "TOTAL", "case": c[:200], "impl": "debug: %s ; unsafe-release: %s" % (a[:100], b[:100])})
+    # the debug-assertion builds of the other cfg branches (table hex codecs, low-memory buckets, naive distances, static SSE2):
+    # no panic, no crash, and the model's answer, on the same corpus
+    others = ["nosimd", "embedded", "lowmem", "decq", "decmin", "static-sse2"]
+    st["other_builds"] = {}
+    for name in others:
+        hb2 = ctx.harness(name)
+        if hb2 is None:
+            continue
+        fl2 = configs.flags(name)
+        o2 = core.run_cases(hb2, cases, tag="c17o")
+        o2, nc = isolate(hb2, cases, o2)
+        m2 = core.run_cases(db, cases, extra_args=list(fl2), tag="c17om")
+        nbad = 0
+        for c, o, m in zip(cases, o2, m2):
+            ctx.evaluations += 1
+            ctx.nontrivial.add((name, c[:160]))
+            what = None
+            if o.startswith("CRASH"):
+                what = "the `%s` build crashed (%s)" % (name, o[:60])
+            elif o.startswith("PANIC") and not expected_panic(c):
+                what = "the `%s` build panicked on a safe API call that is documented to return normally" % name
+            elif expected_panic(c) and not o.startswith("PANIC"):
+                what = "the `%s` build did not panic cleanly: `%s`" % (name, o[:60])
+            if what:
+                nbad += 1
+                ctx.violations.append({"suite": "TOTAL[%s]" % name, "case": c if len(c) < 4000 else c[:4000] + "...", "impl": o[:200],
+                                       "what": what, "config": name, "flags": list(fl2)})
+            if o != m and not o.startswith("CRASH"):
+                st["disagreements"] += 1
+                ctx.correspondence_failures.append({"suite": "TOTAL[%s]" % name, "case": c[:4000], "impl": o[:300], "model": m[:300],
+                                                    "flags": list(fl2), "config": name})
+        st["other_builds"][name] = {"cases": len(cases), "failures": nbad, "crashed_lines_before_isolation": nc}
     ok, fails = core.coq_eval_sample([(c, m) for c, m in list(zip(cases, mod_uns))[::max(1, len(cases) // 8)] if len(c) < 3000][:8], fl_uns, tag="C17")
     st["coq_cross_checked"] = ok
     for inp, msg in fails:
